@@ -173,7 +173,7 @@ def run_tlc(spec, cfg, cwd, workers=None, timeout=3600, extra=None, heap="8g", e
     workers = workers or NCPU
     meta = os.path.join(cwd, "states")
     shutil.rmtree(meta, ignore_errors=True)
-    cmd = ["java", "-XX:+UseParallelGC", "-Xmx" + heap, "-DTLA-Library=" + SPEC]
+    cmd = ["java", "-XX:+UseParallelGC", "-Xss32m", "-XX:ThreadStackSize=32768", "-Xmx" + heap, "-DTLA-Library=" + SPEC]
     if dfs:
         cmd.append("-Dtlc2.tool.queue.IStateQueue=StateDeque")
     cmd += ["-cp", TLA_JARS, "tlc2.TLC", "-nowarning", "-workers", str(workers), "-metadir", meta,
@@ -240,6 +240,7 @@ def write_evidence(pid, tier, level, coverage, wall, violations=0, assumptions=N
 
 
 _findings = None
+_printed = set()
 
 
 def known_findings():
@@ -268,7 +269,7 @@ class Reporter:
         for f in self.entries:
             if f.get("clause") not in (None, "*", clause) and clause not in f.get("clauses", []):
                 continue
-            if any(k in f.get("witness", []) for k in witness_keys):
+            if any(re.fullmatch(w, k) for w in f.get("witness", []) for k in witness_keys):
                 return f
         return None
 
@@ -285,8 +286,18 @@ class Reporter:
         self.violations.append((path, summary))
         return True
 
+    def witness_names(self):
+        """plain case names mentioned by this property's listed findings (always kept in the corpus)"""
+        out = set()
+        for f in self.entries:
+            out |= set(f.get("cases", []))
+        return out
+
     def finish(self):
         for fid, what in sorted(self.known.items()):
+            if fid in _printed:
+                continue
+            _printed.add(fid)
             print("KNOWN-FINDING: property=%s %s [%s]" % (self.pid, what, fid))
         for path, summary in self.violations:
             print("VIOLATION property=%s replay=%s %s" % (self.pid, path, summary))
